@@ -38,7 +38,7 @@ var c09Ops = []string{
 	"BWS.Write", "BWS.Sync", "BWS.Stop", "Locked.Write", "Locked.Sync",
 	"LazyChild.Info", "LazyChild.With", "yield",
 	"ReflectCtx.Info(reflect)", "ReflectCtx.Info(reflect)", "ReflectCtx.With(reflect)", "Logger.Info(unencodable)", "Logger.Error(errors)", "Logger.Info(nested)",
-	"DeepStack.Error", "DeepStack.Error", "Logger.Info(big)", "StdLog.Print", "grpc.Info", "grpc.V", "zapio.Write", "Logger.Check(disabled)", "Logger.Info(stringers)",
+	"Logger.Info(unencodable-last)", "Logger.Info(unencodable-last)", "DeepStack.Error", "DeepStack.Error", "Logger.Info(big)", "StdLog.Print", "grpc.Info", "grpc.V", "zapio.Write", "Logger.Check(disabled)", "Logger.Info(stringers)",
 }
 
 type c09Program struct {
@@ -276,7 +276,10 @@ func c09Run(t interface{ Fatalf(string, ...any) }, p *c09Program) (sharedWriters
 					case "Logger.Info(unencodable)":
 						shared.Info("u", zap.Reflect("bad", make(chan int)), zap.Reflect("nan", map[string]float64{"x": math.NaN()}), zap.Reflect("ok", []int{g}))
 						reflCtx.Info("u", zap.Reflect("bad", func() {}), zap.Reflect("ok", g))
-					case "Logger.Error(errors)":
+					case "Logger.Info(unencodable-last)":
+					shared.Info("u", zap.Int("g", g), zap.Reflect("bad", make(chan int)))
+					reflCtx.Info("u", zap.Reflect("ok", g), zap.Reflect("bad", map[string]float64{"x": math.Inf(1)}))
+				case "Logger.Error(errors)":
 						shared.Error("e", zap.Errors("errs", []error{fmt.Errorf("e%d", g), nil, verboseErr{"v"}, groupErr{"g", []error{fmt.Errorf("m")}}}), zap.NamedError("ne", panicErr{"boom"}))
 					case "Logger.Info(nested)":
 						shared.Info("n", zap.Object("o", c04Obj{g, "pad"}), zap.Objects("os", []c04Obj{{g, "a"}, {g, "b"}}), zap.Dict("d", zap.Int("g", g), zap.Namespace("ns"), zap.Duration("dur", time.Duration(g))),
